@@ -9,8 +9,9 @@
 (*            scale)                                                           *)
 (*   e.par  : parameters and returned index maps, all fields always present    *)
 (*            (unused ones empty): elements, ix, skips, skipb, fnum, fden, d,  *)
-(*            axis, c (TWICE the mirror plane's coordinate), A, b, facets, fv,  *)
-(*            ret, proj, sign, xmap                                            *)
+(*            nrm, p0, nn (mirror plane: integer normal, a point of the plane  *)
+(*            at the event's scale, nrm.nrm), A, b, facets, fv, ret, proj,     *)
+(*            sign, xmap                                                       *)
 (*   e.ck_pre, e.ck_post : checksums of the operands' arrays around the call   *)
 (* used by the model-checking module MC_C18 and by the trace specification.    *)
 (* Part 2 - transcriptions (Impl) of the operations with non-trivial index     *)
@@ -40,15 +41,21 @@ RECURSIVE ProdSeq(_)
 ProdSeq(s) == IF s = <<>> THEN 1 ELSE Head(s) * ProdSeq(Tail(s))
 Img(e, x) ==
   CASE e.op = "translated" -> VAdd(x, e.par.d)
-    [] e.op = "mirrored"   -> [i \in DOMAIN x |-> IF i = e.par.axis THEN e.par.c - x[i] ELSE x[i]]   \* par.c = 2 * plane
+    [] e.op = "mirrored"   ->        \* reflection through the plane {y : nrm.(y - p0) = 0}, nn = nrm.nrm:
+                                     \* x - 2 (nrm.(x - p0)) nrm / nn   (rational; exact on the logged lattice)
+         LET dd == Dot(e.par.nrm, VSub(x, e.par.p0)) IN
+         [i \in DOMAIN x |-> x[i] - ((2 * dd * e.par.nrm[i]) \div e.par.nn)]
     [] e.op = "morphed"    -> Affine(e.par.A, e.par.b, x)
     [] e.op = "scaled"     -> [i \in DOMAIN x |-> (x[i] * e.par.fnum[i]) \div e.par.fden[i]]
     [] OTHER               -> x
 ImgSet(e, S)  == {Img(e, x) : x \in S}
 ImgSets(e, SS) == {ImgSet(e, S) : S \in SS}
-\* scaled: the division above must be exact
-ImgExact(e) == e.op = "scaled" => \A v \in DOMAIN Pre(e).p : \A i \in DOMAIN Pre(e).p[v] :
-                                     (Pre(e).p[v][i] * e.par.fnum[i]) % e.par.fden[i] = 0
+\* scaled / mirrored: the divisions above must be exact
+ImgExact(e) ==
+  /\ e.op = "scaled" => \A v \in DOMAIN Pre(e).p : \A i \in DOMAIN Pre(e).p[v] :
+                           (Pre(e).p[v][i] * e.par.fnum[i]) % e.par.fden[i] = 0
+  /\ e.op = "mirrored" => \A v \in DOMAIN Pre(e).p : \A i \in DOMAIN Pre(e).p[v] :
+                           (2 * Dot(e.par.nrm, VSub(Pre(e).p[v], e.par.p0)) * e.par.nrm[i]) % e.par.nn = 0
 
 KeptCells(e) == IF e.op = "restrict" THEN VSet(e.par.elements) ELSE DOMAIN Pre(e).t \ VSet(e.par.elements)
 
@@ -63,7 +70,8 @@ ParWellFormed(e) ==
     [] e.op = "scaled"     -> /\ Len(e.par.fnum) = PDim(e) /\ Len(e.par.fden) = PDim(e)
                               /\ \A i \in DOMAIN e.par.fden : e.par.fden[i] > 0
     [] e.op = "translated" -> Len(e.par.d) = PDim(e)
-    [] e.op = "mirrored"   -> e.par.axis \in 1..PDim(e)
+    [] e.op = "mirrored"   -> /\ Len(e.par.nrm) = PDim(e) /\ Len(e.par.p0) = PDim(e)
+                              /\ e.par.nn > 0 /\ e.par.nn = Dot(e.par.nrm, e.par.nrm)
     [] e.op = "morphed"    -> /\ Len(e.par.A) = PDim(e) /\ Len(e.par.b) = PDim(e)
                               /\ \A i \in DOMAIN e.par.A : Len(e.par.A[i]) = PDim(e)
     [] OTHER               -> TRUE
